@@ -81,3 +81,45 @@ Lemma fp_ids dbg : same_ids dbg u u'.
 Proof. split; [apply fp_scheme|]. split; [apply fp_username|]. split; [apply fp_password | apply fp_host_str]. Qed.
 
 End FrontPre.
+
+(* ---------- generic versions: only what each accessor needs ---------- *)
+Lemma scheme_same u u' a : wf_b u = true -> wf_b u' = true -> agree_pre a (ser u) (ser u') ->
+  scheme_end u' = scheme_end u -> scheme_end u <= a -> scheme u' = scheme u.
+Proof.
+  intros W W' P E Hle. rewrite (scheme_eval u' W'), (scheme_eval u W). unfold piece. cbn [pidx].
+  rewrite E, !N.sub_0_r, !nskipn_0. rewrite (pre_firstn a _ _ _ P) by lia. reflexivity.
+Qed.
+
+Lemma username_same dbg u u' a : wf_b u = true -> wf_b u' = true -> has_authority_b u = true ->
+  has_authority_b u' = true -> agree_pre a (ser u) (ser u') -> scheme_end u' = scheme_end u ->
+  username_end u' = username_end u -> username_end u <= a -> username dbg u' = username dbg u.
+Proof.
+  intros W W' Ha Ha' P E1 E2 Hle. rewrite (username_eval dbg u' W'), (username_eval dbg u W).
+  unfold piece. cbn [pidx]. rewrite Ha, Ha', E1, E2. rewrite (pre_piece a _ _ _ _ P) by lia. reflexivity.
+Qed.
+
+Lemma password_same dbg u u' a : wf_b u = true -> wf_b u' = true -> has_authority_b u = true ->
+  has_authority_b u' = true -> agree_pre a (ser u) (ser u') ->
+  username_end u' = username_end u -> host_start u' = host_start u -> host_start u <= a ->
+  password dbg u' = password dbg u.
+Proof.
+  intros W W' Ha Ha' P E2 E3 Hle.
+  pose proof (wf_auth_facts u W Ha) as F. pose proof (wf_auth_facts u' W' Ha') as F'.
+  pose proof (af_hs F); pose proof (af_he F); pose proof (af_ps F); pose proof (af_len F).
+  pose proof (af_hs F'); pose proof (af_he F'); pose proof (af_ps F'); pose proof (af_len F').
+  assert (has_password_b u' = has_password_b u) as Hp.
+  { unfold has_password_b. rewrite Ha, Ha', E2. cbn [andb].
+    destruct (af_userinfo F) as [[U1 U2]|[(U1 & U2 & U3 & U4)|(U1 & U2 & U3 & U4)]].
+    - rewrite U2, andb_false_r.
+      destruct (af_userinfo F') as [[V1 V2]|[(V1 & _)|(V1 & _)]]; try (rewrite E2, E3 in V1; contradiction).
+      rewrite E2 in V2. rewrite V2. apply andb_false_r.
+    - rewrite (pre_byte_eqb a _ _ _ _ P) by lia. rewrite U2.
+      pose proof (byte_eqb_lt _ _ _ U2).
+      replace (username_end u =? nlen (ser u)) with false by lia.
+      replace (username_end u =? nlen (ser u')) with false by lia. reflexivity.
+    - rewrite (pre_byte_eqb a _ _ _ _ P) by lia. rewrite U2, !andb_false_r. reflexivity. }
+  rewrite (password_piece dbg u' W'), (password_piece dbg u W). rewrite Hp.
+  destruct (has_password_b u) eqn:Hpw; [|reflexivity].
+  unfold piece. cbn [pidx]. rewrite Hp, Hpw. rewrite E2, E3.
+  rewrite (pre_piece a _ _ _ _ P) by lia. reflexivity.
+Qed.
